@@ -304,7 +304,8 @@ def run_case(ctx, case):
     mon = CompositionMonitor(ctx)
     eng = hist.Engine(ctx, case, [mon])
     eng.run()
-    ctx.case({k: case[k] for k in ("worklist", "worktable", "n_ops", "opseed")}, mon.multi)
+    c2 = {k: case[k] for k in ("worklist", "worktable", "n_ops", "opseed")}
+    ctx.case(c2, mon.multi, sample=dict(c2, executed_operations_tail=eng.tail(4)))
 
 
 def extra(ctx):
